@@ -87,32 +87,70 @@ func (p editProc) PostProcess(nodes []*html.Node) error { return p.run(nodes) }
 // of a front-matter value observable.
 var testFuncs = vuego.FuncMap{"times3": func(n int) int { return n * 3 }}
 
-func newRoot(fs iofs.FS, proc string, comps bool) vuego.Template {
-	opts := []vuego.LoadOption{vuego.WithFuncs(testFuncs)}
+// Constructor spellings of the long-lived engines (Case.Ctor). The engine created for
+// comparison is always built the canonical way (ctorCanonical): a documented-equivalent
+// spelling must refresh exactly like it.
+const (
+	ctorCanonical   = ""               // vuego.NewFS(fs, opts...);  NewVue(fs).Funcs(..).RegisterComponent(..).RegisterNodeProcessor(..)
+	ctorWithFSFirst = "new-withfs"     // vuego.New(vuego.WithFS(fs), opts...);  NewVue(fs) with the registrations in reverse order
+	ctorWithFSMid   = "new-withfs-mid" // vuego.New(WithFuncs(..), vuego.WithFS(fs), the options that read the file system...)
+)
+
+var allCtors = []string{ctorCanonical, ctorWithFSFirst, ctorWithFSMid}
+
+func validCtor(c string) bool {
+	return c == ctorCanonical || c == ctorWithFSFirst || c == ctorWithFSMid
+}
+
+func newRoot(fs iofs.FS, proc string, comps bool, ctor string) vuego.Template {
+	// options that do not look at the file system
+	pre := []vuego.LoadOption{vuego.WithFuncs(testFuncs)}
+	// options that read the engine's file system when they are applied (WithComponents scans
+	// components/, WithLessProcessor hands it to the LESS importer): they follow WithFS
+	var post []vuego.LoadOption
 	if comps {
-		// scans components/ of the filesystem at construction (components/Badge.vuego -> <badge>)
-		opts = append(opts, vuego.WithComponents())
+		post = append(post, vuego.WithComponents())
 	}
 	switch proc {
 	case procNone:
 	case procLess:
-		opts = append(opts, vuego.WithLessProcessor())
+		post = append(post, vuego.WithLessProcessor())
 	default:
-		opts = append(opts, vuego.WithProcessor(editProc{proc}))
+		pre = append(pre, vuego.WithProcessor(editProc{proc}))
 	}
-	return vuego.NewFS(fs, opts...)
+	switch ctor {
+	case ctorWithFSFirst:
+		opts := append([]vuego.LoadOption{vuego.WithFS(fs)}, pre...)
+		return vuego.New(append(opts, post...)...)
+	case ctorWithFSMid:
+		opts := append(append([]vuego.LoadOption{}, pre...), vuego.WithFS(fs))
+		return vuego.New(append(opts, post...)...)
+	}
+	return vuego.NewFS(fs, append(pre, post...)...)
 }
 
-func newVue(fs iofs.FS, proc string, comps bool) *vuego.Vue {
-	v := vuego.NewVue(fs).Funcs(testFuncs)
-	if comps {
-		v.RegisterComponent("badge", fBadge)
+func newVue(fs iofs.FS, proc string, comps bool, ctor string) *vuego.Vue {
+	v := vuego.NewVue(fs)
+	regProc := func() {
+		if proc == procLess {
+			v.RegisterNodeProcessor(vuego.NewLessProcessor(fs))
+		} else if proc != procNone {
+			v.RegisterNodeProcessor(editProc{proc})
+		}
 	}
-	if proc == procLess {
-		return v.RegisterNodeProcessor(vuego.NewLessProcessor(fs))
+	regComps := func() {
+		if comps {
+			v.RegisterComponent("badge", fBadge)
+		}
 	}
-	if proc != procNone {
-		v.RegisterNodeProcessor(editProc{proc})
+	if ctor == ctorCanonical {
+		v.Funcs(testFuncs)
+		regComps()
+		regProc()
+	} else {
+		regProc()
+		regComps()
+		v.Funcs(testFuncs)
 	}
 	return v
 }
